@@ -31,6 +31,10 @@ def scale (deletePVC : Bool) (cur : Option Int) (tpls : Nat) (expect : Int) (r :
         (List.range (old - expect).toNat).all fun k =>
           (List.range tpls).all fun t => r.deleted.contains (t, expect + k))
 
+/-- a rejected `Update` changes nothing: replica count as before, no claim deleted, error reported -/
+def scaleRejected (cur : Option Int) (r : ScaleResult) (errReturned : Bool) : Bool :=
+  r.replicas == cur && r.deleted.isEmpty && errReturned
+
 def rolling (replicas updated : Int) (skippedObs : Bool) : Bool :=
   replicas == updated || skippedObs
 
